@@ -255,6 +255,46 @@ pub fn driver_answers_for_declared_part(deadline: &Deadline) -> Stats {
     })
 }
 
+/// A declaration that reads no output leaves the test static: the rows of `try_iter_static` carry
+/// the declared signal like every other expected entry (name and expected value of each entry equal
+/// those of a dynamic run's row).
+pub fn static_rows_part(deadline: &Deadline) -> Stats {
+    use crate::driver::Step;
+    let texts = [
+        "A K\ndeclare K = 2 + 3;\n1 5\n2 X\nC 7\n",
+        "A Q\ndeclare K = 7;\n1 X\nloop(i,2)\n(i) 1\nend loop\n",
+        "A W K Q\ndeclare K = 1 << 40;\ndeclare W = 5 + 1;\n1 X (0-1) 3\n",
+        "K A\nlet K = 4;\ndeclare K = 9;\n(K) 1\nX (K)\n",
+    ];
+    let sigs = sigs();
+    par_range("static rows of tests with declarations that read no output: 4 programs", texts.len() as u64, deadline, |u, st| {
+        let text = texts[u as usize];
+        let Ok(tc) = load(text, &sigs, DEFAULT_BUDGET) else {
+            st.violation("construction", (20 << 40) + u, format!("{text}does not load"), || json!({"kind": "none", "text": text, "expected": ["loads"], "observed": ["does not load"]}));
+            return;
+        };
+        st.evals += 1;
+        st.nontrivial += 1;
+        st.witness("static_rows_of_a_test_with_a_declaration");
+        let script = vec![Step::Ans(vec![("Q".into(), V::Num(3)), ("R".into(), V::Num(1))])];
+        let mut opts = RunOpts::new(16);
+        opts.repeat_last = true;
+        let dynamic = run_loaded(&tc, &sigs, true, &script, &opts);
+        let want: Vec<Vec<(String, V)>> = dynamic.items.iter().filter_map(|i| if let ObsItem::Row(r) = i { Some(r.outputs.iter().map(|o| (o.name.clone(), o.expected)).collect()) } else { None }).collect();
+        let got = match run_static(&tc, 16, 1, DEFAULT_BUDGET) {
+            StaticObs::Rows(rows, _) => rows.into_iter().filter_map(|r| r.ok()).map(|r| r.expected).collect::<Vec<_>>(),
+            other => {
+                st.violation("static iteration of a test whose declarations read no output", (20 << 40) + u, format!("{text}try_iter_static: {other:?}"), || json!({"kind": "static", "text": text, "signals": sigs_json(&sigs), "expected": ["static rows"], "observed": [format!("{other:?}")]}));
+                return;
+            }
+        };
+        if want != got {
+            let k = want.iter().zip(got.iter()).position(|(a, b)| a != b).unwrap_or(want.len().min(got.len()));
+            st.violation("static rows differ from the dynamic rows in their expected entries", (20 << 40) + u, format!("{text}row {k}: dynamic run has expected entries {:?}, the static row {:?}", want.get(k), got.get(k)), || json!({"kind": "static", "text": text, "signals": sigs_json(&sigs), "expected": [format!("{:?}", want.get(k))], "observed": [format!("{:?}", got.get(k))]}));
+        }
+    })
+}
+
 pub fn pushed_signal_part(deadline: &Deadline) -> Stats {
     use crate::driver::Step;
     use crate::props::util::*;
@@ -499,6 +539,7 @@ pub fn run(tier: Tier, seed: u64) -> i32 {
     parts.merge(cloned_signal_list_part(&deadline));
     parts.merge(pushed_signal_part(&deadline));
     parts.merge(driver_answers_for_declared_part(&deadline));
+    parts.merge(static_rows_part(&deadline));
     let ncases = cases.len();
     let nshadow = cases.iter().filter(|c| c.name.contains("shadow 1") || c.name.contains("shadow 2") || c.name.contains("shadow 4")).count();
     let res = explore(cases, oracle(), true, &deadline);
